@@ -157,6 +157,9 @@ bool World::feed_next_batch_error() {
 
 void World::turn_end() {
 	cur_read_client = -1;
+	// the shortage that made accept() fail is over
+	lasting_accept_failures_turn = 0;
+	for (auto &kf : g_kernel.fds) if (kf.kind == FD_LISTEN && kf.lasting_accept_failure) { kf.lasting_accept_failure = false; if (!kf.backlog.empty() && kf.backlog.front() < 0) kf.backlog.pop_front(); }
 	feed_batch_errors_before(-1);
 	flush_pending();
 	batch.clear();
